@@ -37,6 +37,12 @@ func (f *fakeDNS) Dial(ctx context.Context, network, address string) (net.Conn, 
 	return c1, nil
 }
 
+func (f *fakeDNS) count() int {
+	f.mu.Lock()
+	defer f.mu.Unlock()
+	return f.queries
+}
+
 func (f *fakeDNS) set(answer func(q dnsmessage.Question) (dnsmessage.RCode, []dnsmessage.Resource), onQuery func(string, dnsmessage.Type)) {
 	f.mu.Lock()
 	f.answer, f.onQuery = answer, onQuery
